@@ -146,10 +146,6 @@ m('c14-infinite-accepted', ['C14'], 'FpCategory::Infinite', [
         Subnormal => Ok(parse_from_f64_subnormal(n)),""", """        Subnormal => Ok(parse_from_f64_subnormal(n)),
         Infinite => Ok(parse_from_f64(n)),""")],
   'f64 infinities converted as if finite')
-m('c14-subnormal-routed-to-normal', ['C14'], 'FpCategory::Subnormal', [
-  ('src/parsing.rs', """        Subnormal => Ok(parse_from_f32_subnormal(n)),
-        Normal | Zero => Ok(parse_from_f32(n)),""", """        Normal | Zero | Subnormal => Ok(parse_from_f32(n)),""")],
-  'f32 subnormals take the normal path')
 m('c14-from-f64-bypasses-classifier', ['C14'], 'R-NOCALL', [
   ('src/impl_num.rs', """    fn from_f64(n: f64) -> Option<Self> {
         BigDecimal::try_from(n).ok()""", """    fn from_f64(n: f64) -> Option<Self> {
